@@ -169,9 +169,12 @@ theorem C05_size (p : Policy) (s : Setup) (c : ChainState) (e e' : EState) (n po
   have := of_decide_eq_false (check_ok h1 hf)
   omega
 
-/-- **C05 (on-chain)**: with the on-chain validator a *new* commitment beyond the initial one
-    (any counterparty commitment; a holder commitment with `n ≥ next_holder_commit_num`) is accepted only
-    if the funding output is buried at least `min_funding_depth` deep and no close was seen on chain. -/
+/-- **C05 (on-chain)**: with the on-chain validator no NEW commitment beyond the initial one is accepted
+    while the funding output is unconfirmed (depth below `min_funding_depth`) or after a close is seen on
+    chain.  "New" by the right counter for each side: *any* counterparty commitment `n > 0` (the code never
+    skips the gate there), a holder commitment with `n ≥ next_holder_commit_num`.  The three corollaries
+    below spell the sides out; `C05_onchain_holder_retry_same` shows that what skips the gate is a retry
+    with identical content. -/
 theorem C05_onchain (p : Policy) (s : Setup) (c : ChainState) (e : EState) (n : Nat) (i : Info) (point : Nat)
     (hoc : p.onchain = true) (hf : errs p .spendsActiveUtxo = true) (hn : 0 < n)
     (hnew : i.isCp = true ∨ e.nextHolder ≤ n)
@@ -197,6 +200,55 @@ theorem C05_onchain (p : Policy) (s : Setup) (c : ChainState) (e : EState) (n : 
   have k1 := of_decide_eq_false (check_ok k1 hf)
   have k2 := of_decide_eq_false (check_ok k2 hf)
   omega
+
+/-- counterparty side, by the right counter — none: the code gates **every** counterparty commitment
+    `n > 0`, new or retry, whatever the holder counter is.  (A guard by `next_holder_commit_num` here — the
+    holder path's retry guard — would let a NEW counterparty commitment through after a close was seen
+    whenever the holder side is ahead; with such a model this theorem is not provable.) -/
+theorem C05_onchain_counterparty (p : Policy) (s : Setup) (c : ChainState) (e : EState) (n : Nat) (i : Info) (point : Nat)
+    (hoc : p.onchain = true) (hf : errs p .spendsActiveUtxo = true) (hn : 0 < n) (hcp : i.isCp = true)
+    (h : validateCommitment p s c e n i point = .ok ()) :
+    Gen.Policy.minFundingDepth ≤ c.fundingDepth ∧ c.closingDepth = 0 :=
+  C05_onchain p s c e n i point hoc hf hn (Or.inl hcp) h
+
+/-- holder side: a NEW holder commitment (`n ≥ next_holder_commit_num`, the holder's own counter) beyond the
+    initial one is accepted only with the funding buried and no close seen -/
+theorem C05_onchain_holder_new (p : Policy) (s : Setup) (c : ChainState) (e : EState) (n : Nat) (i : Info)
+    (hoc : p.onchain = true) (hf : errs p .spendsActiveUtxo = true) (hn : 0 < n) (hnew : e.nextHolder ≤ n)
+    (h : validateCommitment p s c e n i = .ok ()) :
+    Gen.Policy.minFundingDepth ≤ c.fundingDepth ∧ c.closingDepth = 0 :=
+  C05_onchain p s c e n i 0 hoc hf hn (Or.inr hnew) h
+
+/-- … and the only holder requests that skip the gate (`n < next_holder_commit_num`) are retries of the
+    current holder commitment with **identical content**: nothing new is accepted through that path. -/
+theorem C05_onchain_holder_retry_same (p : Policy) (s : Setup) (c : ChainState) (e : EState) (n : Nat) (i : Info)
+    (hcp : i.isCp = false) (hold : n < e.nextHolder)
+    (h1 : errs p .retrySame = true) (h2 : errs p .holderNotRevoked = true)
+    (h : validateCommitment p s c e n i = .ok ()) :
+    n + 1 = e.nextHolder ∧ e.curHolderInfo = some i := by
+  unfold validateCommitment at h
+  simp only [hcp] at h
+  unfold validateHolder at h
+  obtain ⟨_, _, h⟩ := bind_ok h
+  obtain ⟨_, _, h⟩ := bind_ok h
+  obtain ⟨n1, hn1, h⟩ := bind_ok h
+  obtain ⟨_, hr, h⟩ := bind_ok h
+  obtain ⟨n2, hn2, h⟩ := bind_ok h
+  obtain ⟨_, hnr, _⟩ := bind_ok h
+  obtain ⟨rfl, _⟩ := addU64_ok hn1
+  obtain ⟨rfl, _⟩ := addU64_ok hn2
+  have hnr := of_decide_eq_false (check_ok hnr h2)
+  have heq : n + 1 = e.nextHolder := by omega
+  refine ⟨heq, ?_⟩
+  have hr := whenE_ok hr (by simp [heq])
+  unfold holderRetry at hr
+  cases hc : e.curHolderInfo with
+  | none => simp [hc] at hr
+  | some cur =>
+    simp only [hc] at hr
+    have := of_decide_eq_false (check_ok hr h1)
+    simp at this
+    rw [this]
 
 /-- the phase-2 entry points return `Ok` only if the validator accepted (so the theorems above speak
     about `sign_counterparty_commitment_tx_phase2` / `validate_holder_commitment_tx_phase2`) -/
